@@ -2,13 +2,13 @@ SPECIFICATION MCSpec
 CONSTANTS SettleDelay = 2
           MaxLane = 2
           MaxNonce = 2
-          MaxAmt = 1
-          MaxBal = 1
-          MaxEpoch = 2
+          MaxAmt = 2
+          MaxBal = 2
+          MaxEpoch = 4
           ExportLen = 0
-          Mshs = {0, 2}
+          Mshs = {0, 4}
           GoodCallers = {"payee"}
-          MergeNonces = {2}
+          MergeNonces = {1, 2}
 CONSTRAINT Bound
 VIEW View
 INVARIANT Solvent
